@@ -804,6 +804,37 @@ example :
     ids (putPeripherals demoPCfg demoTarget dup).1 = ["fixed", "boiler", "attic_board"] := by
   decide
 
+/-- the hypotheses of the round trip are invariants of the registry (`Inv`: distinct effective ids, `WFP`, no static
+peripheral after a non-static one): POST, DELETE and PUT /peripherals — accepted or refused — keep them, provided the
+auto id is never empty (it starts with `peripheral_`); and `Inv` gives the three hypotheses -/
+theorem peripherals_invariant (cfg : Peripherals.Cfg) (hauto : ∀ e, cfg.auto e ≠ "") (reg : List Periph) (h : Inv reg) :
+    (∀ e, Inv (postPeripheral cfg reg e).1) ∧ (∀ id, Inv (deletePeripheral reg id).1) ∧
+    (∀ doc, Inv (putPeripherals cfg reg doc).1) ∧
+    ((ids reg).Nodup ∧ (∀ p ∈ reg, WFP p) ∧ StaticsFirst reg) :=
+  ⟨fun e => inv_post cfg hauto reg e h, fun id => inv_delete reg id h, fun doc => inv_put cfg hauto reg doc h,
+   h.1, h.2.1, staticsFirst_of_pairwise reg h.2.2⟩
+
+/-- the round trip for registries satisfying the invariant -/
+theorem peripherals_restore_roundtrip_reachable (cfg : Peripherals.Cfg) (tgt src : List Periph) (hsrc : Inv src)
+    (hschema : ∀ p ∈ src, cfg.schemaOk (toJson p) = true) (ha : ∀ p ∈ src, p.static = false → Addable cfg p)
+    (hstat : tgt.filter (·.static) = src.filter (·.static)) :
+    (putPeripherals cfg tgt (getPeripherals src)).2 = .ok ∧
+    getPeripherals (putPeripherals cfg tgt (getPeripherals src)).1 = getPeripherals src :=
+  have h := peripherals_restore_roundtrip cfg tgt src hschema hsrc.2.1 ha hsrc.1
+    (staticsFirst_of_pairwise src hsrc.2.2) hstat
+  ⟨h.1, h.2.1⟩
+
+theorem demo_auto_nonempty : ∀ e, demoPCfg.auto e ≠ "" := by
+  intro e; unfold demoPCfg; simp only; split <;> decide
+
+/-- the demo source is reachable: three POSTs on a registry holding the static peripheral -/
+example : Inv demoSource :=
+  have h0 : Inv [fixedP] :=
+    ⟨by decide, by intro p hp; simp only [List.mem_singleton] at hp; subst hp
+                   exact ⟨by decide, by intro n hn; simp [truthy, fixedP] at hn; simp [fixedP, hn]⟩,
+     by simp [StaticsFirstP]⟩
+  inv_post _ demo_auto_nonempty _ _ (inv_post _ demo_auto_nonempty _ _ (inv_post _ demo_auto_nonempty _ _ h0))
+
 end Peripherals
 
 /-! ### what is still missing
